@@ -276,6 +276,9 @@ def _mk_leaves():
     add(Leaf("timedelta", "datetime.timedelta", lambda ns: list(TIMEDELTAS), iso8601.write_duration, datetime.timedelta, temporal=True))
     for en, key, sk in (("EInt", True, False), ("EStr", True, True), ("EMix", False, False), ("EIntEnum", True, False), ("EStrMix", True, True)):
         add(Leaf(en, en, _enum_vals(en), lambda v: v.value, _cls(en), keyable=key, strkey=sk))
+    # user subclasses of builtin scalars as TARGET types (the routine has to build the subclass, from every carrier)
+    add(Leaf("StrSub", "StrSub", lambda ns: [ns["StrSub"](x) for x in ("a", "", "1", "null", "é")], lambda v: str(v), _cls("StrSub")))
+    add(Leaf("IntSub", "IntSub", lambda ns: [ns["IntSub"](x) for x in (0, 1, -1, 7)], lambda v: int(v), _cls("IntSub")))
     add(LiteralLeaf("Lit12", "Literal[1, 2]", [1, 2]))
     add(LiteralLeaf("Litab", 'Literal["a", "b"]', ["a", "b"]))
     add(LiteralLeaf("Lit1s1", 'Literal["1", 1]', ["1", 1]))
